@@ -4,7 +4,6 @@ import (
 	"fmt"
 	"github.com/metrico/qryn/reader/logql/logql_transpiler_v2/shared"
 	sql "github.com/metrico/qryn/reader/utils/sql_select"
-	"strings"
 )
 
 type ComplexAndPlanner struct {
@@ -28,7 +27,8 @@ func (c ComplexAndPlanner) Process(ctx *shared.PlannerContext) (sql.ISelect, err
 			With(with).
 			Select(sql.NewSimpleCol("trace_id", "trace_id"),
 				sql.NewSimpleCol("_span_id", "span_id"),
-				sql.NewSimpleCol("max_timestamp_ns", "timestamp_ns")).
+				sql.NewSimpleCol("max_timestamp_ns", "timestamp_ns"),
+				sql.NewSimpleCol(fmt.Sprintf("%d", i), "_op")).
 			From(sql.NewWithRef(with)).
 			Join(sql.NewJoin("array", sql.NewSimpleCol(with.GetAlias()+".span_id", "_span_id"), nil))
 	}
@@ -36,32 +36,10 @@ func (c ComplexAndPlanner) Process(ctx *shared.PlannerContext) (sql.ISelect, err
 	return sql.NewSelect().
 		Select(sql.NewSimpleCol("trace_id", "trace_id"),
 			sql.NewSimpleCol("groupUniqArray(100)(span_id)", "span_id")).
-		From(sql.NewCol(&intersect{
+		From(sql.NewCol(&union{
 			selects: selects,
 		}, c.Prefix+"a")).
 		GroupBy(sql.NewRawObject("trace_id")).
+		AndHaving(sql.Eq(sql.NewRawObject("uniqExact(_op)"), sql.NewIntVal(int64(len(c.Operands))))).
 		OrderBy(sql.NewOrderBy(sql.NewRawObject("max(timestamp_ns)"), sql.ORDER_BY_DIRECTION_DESC)), nil
-}
-
-type intersect struct {
-	sql.ISelect
-	selects []sql.ISelect
-}
-
-func (i *intersect) String(ctx *sql.Ctx, opts ...int) (string, error) {
-	var _opts []int
-	for _, opt := range opts {
-		if opt != sql.STRING_OPT_SKIP_WITH {
-			_opts = append(_opts, opt)
-		}
-	}
-	strSelects := make([]string, len(i.selects))
-	var err error
-	for i, s := range i.selects {
-		strSelects[i], err = s.String(ctx, _opts...)
-		if err != nil {
-			return "", err
-		}
-	}
-	return fmt.Sprintf("(%s)", strings.Join(strSelects, " INTERSECT ")), nil
 }
